@@ -110,8 +110,35 @@ Proof. exact bridged_pass_laws_inst. Qed.
 Theorem LB_idem_laws : forall C kind_of rts ev rt0 base, coding_law C ->
   Utf8Total rt0 -> (forall e, Core.suppressed base (exn_map e) = true) -> (forall s, LoadLaws (rts s)) ->
   (forall s w m, enum_of_val (rts s) w = Ok m -> is_member (rts s) m = true) ->
+  base_idem kind_of base ->
   CoreValid.IdemLaws (bridged C kind_of rts ev rt0 base).
 Proof. exact bridged_idem_laws. Qed.
+(* pass-through leaves (LAny: typing.Any / object / unresolvable): EVERY core value, both ways; every value is valid
+   there; the wire law of C06 does not hold there (a set goes through) -- such a leaf is outside fully_annotated *)
+Theorem LB_any_leaf_noop : forall C kind_of rts ev rt0 base s x, any_leaf kind_of s = true ->
+  Core.leaf_u (bridged C kind_of rts ev rt0 base) s x = Core.Ok x /\
+  Core.leaf_m (bridged C kind_of rts ev rt0 base) s x = Core.Ok x /\
+  (forall strict, lv C kind_of rts ev strict s x = true).
+Proof.
+  intros C kind_of rts ev rt0 base s x H.
+  exact (conj (any_leaf_u C kind_of rts ev rt0 base s x H) (conj (any_leaf_m C kind_of rts ev rt0 base s x H)
+        (fun strict => any_leaf_lv C kind_of rts ev strict s x H))).
+Qed.
+Theorem LB_refuted_any_wire : forall C kind_of rts ev rt0 base s, any_leaf kind_of s = true ->
+  robust_leaf kind_of s = false /\
+  Core.leaf_m (bridged C kind_of rts ev rt0 base) s (Core.PSeq Core.KSet []) = Core.Ok (Core.PSeq Core.KSet []) /\
+  CoreC06.is_wire (prim_atom C) (Core.PSeq Core.KSet []) = false.
+Proof. exact any_leaf_not_wire. Qed.
+(* uuid_text_not_loadable (the one field of Scalars.RuntimeLaws about load on TEXT) is C14_load_plain_text
+   transported: from the shape of text carriers and the interpreter facts about the text of a UUID *)
+Theorem LB_uuid_text_from_serdes : forall T srt rt cp, SLoadLaw T srt rt -> S.RuntimeLaws srt ->
+  STextLaws T srt rt cp -> UuidTextFacts srt rt cp ->
+  forall u c, hashable c = true ->
+    load rt (text rt c (canon_text rt (VUuid u))) = Ok (VText CStr (canon_text rt (VUuid u))).
+Proof. exact uuid_text_from_serdes. Qed.
+Theorem LB_runtime_laws_with_serdes_load : forall T srt rt cp, RuntimeLaws rt -> S.RuntimeLaws srt ->
+  STextLaws T srt rt cp -> UuidTextFacts srt rt cp -> RuntimeLaws (with_load rt (ind_load T srt)).
+Proof. exact with_load_runtime_laws_from_serdes. Qed.
 (* LoadLaws is C14's theorem (C14_load_nontext) for every runtime whose load IS Serdes.load through a shape T *)
 Theorem LB_load_laws_from_serdes : forall T srt rt, SLoadLaw T srt rt -> SShapeLaws T rt -> LoadLaws rt.
 Proof. exact load_laws_from_serdes. Qed.
@@ -167,13 +194,13 @@ Qed.
 
 Theorem C13_idempotent_from_scalar_model : forall C kind_of rts ev rt0 base, coding_law C ->
   Utf8Total rt0 -> (forall e, Core.suppressed base (exn_map e) = true) -> (forall s, LoadLaws (rts s)) ->
-  (forall s w m, enum_of_val (rts s) w = Ok m -> is_member (rts s) m = true) ->
+  (forall s w m, enum_of_val (rts s) w = Ok m -> is_member (rts s) m = true) -> base_idem kind_of base ->
   forall E, CoreValid.wf_env E -> CoreValid.DefaultsConform (bridged C kind_of rts ev rt0 base) E ->
   forall T, (forall k, CoreValid.optional_only E k T = true) ->
   forall n x y, Core.unm (bridged C kind_of rts ev rt0 base) E n T x = Core.Ok y ->
   exists m, forall fuel, m <= fuel -> Core.unm (bridged C kind_of rts ev rt0 base) E fuel T y = Core.Ok y.
 Proof.
-  intros C kind_of rts ev rt0 base CL Ht Hs HLd HE E. exact (C13.C13_idempotent _ E (bridged_idem_laws C kind_of rts ev rt0 base CL Ht Hs HLd HE)).
+  intros C kind_of rts ev rt0 base CL Ht Hs HLd HE HB E. exact (C13.C13_idempotent _ E (bridged_idem_laws C kind_of rts ev rt0 base CL Ht Hs HLd HE HB)).
 Qed.
 
 (* pass-through for every INSTANCE at the leaves (True where int is annotated, members of mixin enums, values == to a
@@ -204,12 +231,13 @@ Qed.
 Theorem C13_idempotent_from_serdes_model : forall C kind_of rts ev rt0 base T srt, coding_law C ->
   Utf8Total rt0 -> (forall e, Core.suppressed base (exn_map e) = true) ->
   (forall s, SLoadLaw T srt (rts s)) -> (forall s, SShapeLaws T (rts s)) -> (forall s, RuntimeLaws (rts s)) ->
+  base_idem kind_of base ->
   forall E, CoreValid.wf_env E -> CoreValid.DefaultsConform (bridged C kind_of rts ev rt0 base) E ->
   forall T', (forall k, CoreValid.optional_only E k T' = true) ->
   forall n x y, Core.unm (bridged C kind_of rts ev rt0 base) E n T' x = Core.Ok y ->
   exists m, forall fuel, m <= fuel -> Core.unm (bridged C kind_of rts ev rt0 base) E fuel T' y = Core.Ok y.
 Proof.
-  intros C kind_of rts ev rt0 base T srt CL Ht Hs H1 H2 HL E. exact (C13.C13_idempotent _ E (bridged_idem_laws C kind_of rts ev rt0 base CL Ht Hs (fun s => load_laws_from_serdes T srt (rts s) (H1 s) (H2 s)) (fun s => enum_result_member (rts s) (HL s)))).
+  intros C kind_of rts ev rt0 base T srt CL Ht Hs H1 H2 HL HB E. exact (C13.C13_idempotent _ E (bridged_idem_laws C kind_of rts ev rt0 base CL Ht Hs (fun s => load_laws_from_serdes T srt (rts s) (H1 s) (H2 s)) (fun s => enum_result_member (rts s) (HL s)) HB)).
 Qed.
 
 (* conformance and wire output: nothing at all is assumed of the interpreter *)
@@ -307,6 +335,17 @@ Proof. exact zero_duration_facts. Qed.
 (* ================================================================== non-vacuity *)
 Example LB_coding_law_satisfiable : coding_law std_coding.
 Proof. exact std_coding_law. Qed.
+(* tuple[Any, int] with a set holding a tuple at the Any position: valid, marshalled and unmarshalled unchanged there *)
+Example LB_any_instance :
+  let brt := bridged std_coding ex_kinds (fun _ => toy_rt) ex_ev toy_rt ex_base in
+  CoreC01.valid brt (lv std_coding ex_kinds (fun _ => toy_rt) ex_ev true) no_env 3 ex_any_T (ex_any_pv std_coding Core.KTuple) = true /\
+  Core.mar brt no_env 3 ex_any_T (ex_any_pv std_coding Core.KTuple) = Core.Ok (ex_any_pv std_coding Core.KList) /\
+  Core.unm brt no_env 3 ex_any_T (ex_any_pv std_coding Core.KList) = Core.Ok (ex_any_pv std_coding Core.KTuple) /\
+  any_leaf ex_kinds 10 = true /\ robust_leaf ex_kinds 10 = false.
+Proof. exact (ex_any std_enc std_dec std_dec_enc). Qed.
+Example LB_std_text_laws : forall srt rt, (forall s, utf8_encode rt s = s) -> (forall p, S.utf8_encode srt p = p) ->
+  STextLaws std_sshape srt rt codes.
+Proof. exact std_text_laws. Qed.
 Example LB_std_shape_laws : forall rt, SShapeLaws std_sshape rt.
 Proof. exact std_sshape_laws. Qed.
 (* serdes.load of the toy interpreter replaced by C14's model (its toy text runtime) through the concrete shape: the
@@ -363,6 +402,10 @@ Print Assumptions LB_none_laws.
 Print Assumptions LB_pass_laws.
 Print Assumptions LB_pass_laws_instances.
 Print Assumptions LB_idem_laws.
+Print Assumptions LB_any_leaf_noop.
+Print Assumptions LB_refuted_any_wire.
+Print Assumptions LB_uuid_text_from_serdes.
+Print Assumptions LB_runtime_laws_with_serdes_load.
 Print Assumptions LB_load_laws_from_serdes.
 Print Assumptions LB_load_nontext_from_serdes.
 Print Assumptions LB_induced_load_law.
@@ -385,6 +428,8 @@ Print Assumptions LB_refuted_pattern_flags.
 Print Assumptions LB_refuted_round_for_instances.
 Print Assumptions LB_zero_duration_roundtrips.
 Print Assumptions LB_coding_law_satisfiable.
+Print Assumptions LB_any_instance.
+Print Assumptions LB_std_text_laws.
 Print Assumptions LB_std_shape_laws.
 Print Assumptions LB_serdes_load_satisfiable.
 Print Assumptions LB_laws_satisfiable.
